@@ -365,13 +365,13 @@ def family_idem_extra():
     steps = submits([(1, 0)]) + [{"op": "wait_outcomes", "n": 1, "ms": 2000}, {"op": "submit", "id": 2, "part": 0, "badenc": True},
                                  {"op": "wait_outcomes", "n": 2, "ms": 2000}] + submits([(3, 0)]) + [{"op": "wait_outcomes", "n": 3, "ms": 2000}]
     steps += submits([(4, 0), (5, 0)]) + [{"op": "wait_outcomes", "n": 5, "ms": 2000}, {"op": "close"}]
-    out.append(sc("idem-badenc", "idem_extra", cfg, steps))
+    out.append(sc("idem-badenc", "idem_clean", cfg, steps))
     for k1, k2 in (("retryapp", "fatal"), ("retry", "fatal"), ("retryapp", "ok"), ("fatal", "retryapp")):
         cfg = dict(idem=True, retryMax=2, leaders=[1, 1], nbrokers=1, flushMsgs=4, flushFreqMs=40)
         pl = {"1": {"part": {"0": k1, "1": k2}}}
         steps = submits([(1, 0), (2, 1), (3, 0), (4, 1)]) + [{"op": "wait_outcomes", "n": 4, "ms": 3000}] + submits([(5, 0), (6, 1)])
         steps += [{"op": "wait_outcomes", "n": 6, "ms": 3000}, {"op": "close"}]
-        out.append(sc("idem-mixed-%s-%s" % (k1, k2), "idem_extra", cfg, steps, pl))
+        out.append(sc("idem-mixed-%s-%s" % (k1, k2), "idem_clean", cfg, steps, pl))
     return out
 
 
